@@ -17,7 +17,7 @@ def programs(tier, rnd: random.Random):
 
 SPEC = semprop.Spec(
     prop="C10", programs=programs, oracles=("sorted",),
-    theorems=["C10_refuted_bool_written", "C10_refuted_local_changes_width", "C10_refuted", "C10_repaired_witnesses"],
+    theorems=["C10_refuted_bool_written", "C10_fixed_local_keeps_width", "C10_refuted", "C10_repaired_witnesses"],
     note="programs mixing comparison/logical results with arithmetic, narrow and wide types, compound assignments; wf_effect checks "
          "both arms of every BRANCH/ITE and every loop body",
 )
